@@ -14,6 +14,8 @@ pub enum Cost {
     Curve(Vec<u64>),
     /// `wcet::ExtrapolatingCurve::new(Curve::new(cumulative))`
     Extrap(Vec<u64>),
+    /// `wcet::Curve::from_iter(raw)`: an arbitrary vector, made monotonic by the constructor
+    FromIter(Vec<u64>),
 }
 
 fn sv(v: &[u64]) -> Vec<Service> {
@@ -27,6 +29,10 @@ impl Cost {
             Cost::Multiframe(v) => Box::new(wcet::Multiframe::new(sv(v))),
             Cost::Curve(v) => Box::new(wcet::Curve::new(sv(v))),
             Cost::Extrap(v) => Box::new(wcet::ExtrapolatingCurve::new(wcet::Curve::new(sv(v)))),
+            Cost::FromIter(v) => {
+                use std::iter::FromIterator;
+                Box::new(wcet::Curve::from_iter(sv(v)))
+            }
         }
     }
     pub fn kind(&self) -> &'static str {
@@ -35,6 +41,7 @@ impl Cost {
             Cost::Multiframe(_) => "Multiframe",
             Cost::Curve(_) => "wcet::Curve",
             Cost::Extrap(_) => "wcet::ExtrapolatingCurve",
+            Cost::FromIter(_) => "wcet::Curve::from_iter",
         }
     }
     pub fn to_json(&self) -> Json {
@@ -43,6 +50,7 @@ impl Cost {
             Cost::Multiframe(v) => crate::jobj! {"Multiframe" => v},
             Cost::Curve(v) => crate::jobj! {"wcet::Curve" => v},
             Cost::Extrap(v) => crate::jobj! {"wcet::ExtrapolatingCurve" => v},
+            Cost::FromIter(v) => crate::jobj! {"wcet::Curve::from_iter" => v},
         }
     }
     pub fn words(&self, out: &mut Vec<u64>) {
@@ -60,6 +68,10 @@ impl Cost {
                 out.extend([24, v.len() as u64]);
                 out.extend(v.iter().copied());
             }
+            Cost::FromIter(v) => {
+                out.extend([25, v.len() as u64]);
+                out.extend(v.iter().copied());
+            }
         }
     }
     /// The largest single-job cost (first cumulative value / max frame).
@@ -68,6 +80,14 @@ impl Cost {
             Cost::Scalar(c) => *c,
             Cost::Multiframe(v) => *v.iter().max().unwrap(),
             Cost::Curve(v) | Cost::Extrap(v) => v[0],
+            Cost::FromIter(v) => {
+                // largest increment of the running maximum (the first job costs hull[0])
+                let mut hull = v.clone();
+                for i in 1..hull.len() {
+                    hull[i] = hull[i].max(hull[i - 1]);
+                }
+                (1..hull.len()).map(|i| hull[i] - hull[i - 1]).chain([hull[0]]).max().unwrap()
+            }
         }
     }
 }
@@ -118,6 +138,13 @@ pub fn gen_cost_z(rng: &mut Rng, cmax: u64) -> Cost {
 pub fn gen_cost_opt(rng: &mut Rng, cmax: u64, scalar_only: bool, zero: bool) -> Cost {
     if scalar_only || rng.chance(1, 2) {
         return Cost::Scalar(rng.log_range(1, cmax.max(1)));
+    }
+    if zero && rng.chance(1, 5) {
+        // an arbitrary vector with a positive first entry; dips become plateaus (zero-cost jobs)
+        let n = rng.usize(1, 6);
+        let mut v: Vec<u64> = (0..n).map(|_| rng.range(0, 2 * cmax.max(1))).collect();
+        v[0] = rng.range(1, cmax.max(1));
+        return Cost::FromIter(v);
     }
     match rng.range(0, 2) {
         0 => {
